@@ -345,8 +345,6 @@ def get_bs_cached(method, cols, basis_dir='', verbose=False):
         "two_point": abel.dasch._bs_two_point
     }
 
-    _method = method
-
     if basis_dir == '':
         basis_dir = abel.transform.get_basis_dir(make=True)
 
@@ -361,7 +359,9 @@ def get_bs_cached(method, cols, basis_dir='', verbose=False):
                     print("Loading deconvolution operator array from"
                           " file {:s}".format(bf))
                 # slice to size
+                # (loading might raise, so the method is remembered after it)
                 _D = np.load(bf)[:cols, :cols]
+                _method = method
                 _source = 'file'
                 return _D
 
@@ -371,6 +371,7 @@ def get_bs_cached(method, cols, basis_dir='', verbose=False):
         print("A new array will be generated.")
 
     _D = D_generator[method](cols)
+    _method = method
     _source = 'generated'
 
     if basis_dir is not None:
